@@ -341,6 +341,25 @@ func ruleEvents(c *Ctx) {
 		}
 		c.check(okc, R, "equals:handler-for-table-userdata-only", p.pos(fn.Pos()), "__eq is consulted on the table/userdata arm only", "__eq is consulted for types other than table and userdata")
 	}
+	// handler lookup reads the real metatable: (*LState).metatable(v, rawget=true). GetMetatable (and
+	// metatable(v, false)) answer with the __metatable field of a protected metatable, which is what
+	// getmetatable() shows to scripts, not where handlers live
+	for _, name := range []string{"(*LState).metaOp1", "(*LState).metaOp2"} {
+		fn := p.Fn("lua", name)
+		if fn == nil {
+			continue
+		}
+		mt := p.Fn("lua", "(*LState).metatable")
+		gm := p.Fn("lua", "(*LState).GetMetatable")
+		okRaw := len(callsTo(fn, mt)) > 0 && len(callsTo(fn, gm)) == 0
+		for _, cl := range callsTo(fn, mt) {
+			if b, ok := constBool(cl.Call.Args[2]); !ok || !b {
+				okRaw = false
+			}
+		}
+		c.Sites++
+		c.check(okRaw, R, strings.TrimPrefix(name, "(*LState).")+":reads-the-real-metatable", p.pos(fn.Pos()), "handlers are looked up with metatable(v, true)", name+" looks a handler up through the __metatable-honouring accessor: for an operand whose metatable is protected the handler is searched in the __metatable value (or not found at all) — 1 + obj fails although obj + 1 works")
+	}
 	// metaOp2 tries value1 first
 	if fn := c.need(R, "lua", "(*LState).metaOp2"); fn != nil {
 		mt := p.Fn("lua", "(*LState).metatable")
